@@ -3,6 +3,8 @@ package world
 import (
 	"net/http"
 
+	"github.com/charmbracelet/log"
+
 	"github.com/flamego/flamego"
 
 	"verif/sim/internal/sched"
@@ -145,6 +147,11 @@ func Build(s *Setup, reqs []*Req, o BuildOpts) *World {
 				_ = flamego.Static(cfg...)
 			}
 			return h
+		case HkReqLogger:
+			return func(c flamego.Context, r *http.Request) {
+				q := w.reqOf(r)
+				c.Map(log.NewWithOptions(&q.logSink, log.Options{Level: log.DebugLevel, Prefix: q.Name}))
+			}
 		case HkToken:
 			return func(c flamego.Context, r *http.Request) {
 				q := w.reqOf(r)
